@@ -78,6 +78,21 @@ def _scenario_store_to_store(root):
     return {"failed": len(res.failed)}
 
 
+def _scenario_store_to_store_expanded(root):
+    """directories requested alone, to be expanded (shallow=False), into a local store with state"""
+    from dvc_data.hashfile.transfer import transfer
+
+    from . import env
+
+    state = env.mk_state(root, os.path.join(root, "tmp"))
+    src = env.local_odb(os.path.join(root, "src"))
+    dest = env.local_odb(os.path.join(root, "dest"), state=state, tmp_dir=os.path.join(root, "tmp"))
+    ids = {h for h in _closed_request(src.path) if h.isdir}
+    res = transfer(src, dest, ids, jobs=1, shallow=False)
+    state.close()
+    return {"failed": len(res.failed)}
+
+
 def _scenario_upload_staging(root):
     from dvc_data.hashfile.build import build
     from dvc_data.hashfile.transfer import transfer
@@ -148,6 +163,7 @@ SCENARIOS = {
     "index-save": _scenario_index_save,
     "index-save-sparse": _scenario_index_save_sparse,
     "store-to-store": _scenario_store_to_store,
+    "store-to-store-expanded": _scenario_store_to_store_expanded,
     "upload-staging": _scenario_upload_staging,
     "push-remote": _scenario_push_remote,
     "push-expanded": _scenario_push_expanded,
